@@ -146,7 +146,8 @@ pub fn dec_words<const B: usize>(raw: &[u8]) -> u32 {
         None => return 1,
     };
     let len = st.buf.len();
-    let n = (st.arg % 4) as usize;
+    // request sizes 0..=3 and huge ones (the request size is the caller's: it is not bounded by the buffer)
+    let n = if st.arg < 0x80 { (st.arg % 4) as usize } else { usize::MAX >> (st.arg % 64) };
     let mut d = Decoder::verif_at(st.buf, st.offset, st.limit);
     let r = d.words(n);
     let i = invariant(&d, len);
@@ -159,7 +160,7 @@ pub fn dec_words<const B: usize>(raw: &[u8]) -> u32 {
             return E_LIMIT_EXCEEDED;
         }
     }
-    let fits_stream = st.offset + 4 * n <= len;
+    let fits_stream = n <= (len - st.offset) / 4;
     let fits_limit = st.limit.map_or(true, |l| n <= l);
     match r {
         Ok(v) => {
